@@ -416,6 +416,10 @@ func (tc *TrCtx) tr0(e Expr) TVal {
 	case *EBinary:
 		return tc.trBinary(e)
 	case *EField:
+		if call, ok := e.X.(*ECall); ok && len(e.Name) == 1 && e.Name[0] >= '0' && e.Name[0] <= '9' {
+			// f(args).N : the N-th result (0-based) of a pure multi-result function
+			return tc.trCallResult(call, int(e.Name[0]-'0'))
+		}
 		if id, ok := e.X.(*EIdent); ok {
 			if _, isVar := tc.vars[id.Name]; !isVar {
 				if r := tc.tryResultIndex(id.Name, e.Name); r != nil {
@@ -518,6 +522,31 @@ func (tc *TrCtx) tr0(e Expr) TVal {
 	}
 	trFail("cannot translate %s (%T)", e, e)
 	return TVal{}
+}
+
+// trCallResult: pkg.Func(args).N for pure external functions with several results.
+func (tc *TrCtx) trCallResult(e *ECall, n int) TVal {
+	id, ok := e.Recv.(*EIdent)
+	if !ok {
+		trFail("result selection needs pkg.Func(args).N")
+	}
+	p := tc.vc.eng.findPkg(id.Name, tc.pkg)
+	if p == nil {
+		trFail("unknown package %s", id.Name)
+	}
+	fo, ok := p.Scope().Lookup(e.Fun).(*types.Func)
+	if !ok {
+		trFail("unknown function %s.%s", id.Name, e.Fun)
+	}
+	var args []TVal
+	for _, a := range e.Args {
+		args = append(args, tc.tr(a))
+	}
+	rs := tc.vc.eng.pureAppN(tc.vc, tc.st, fo, nil, args, nil)
+	if n >= len(rs) {
+		trFail("%s.%s has %d results", id.Name, e.Fun, len(rs))
+	}
+	return rs[n]
 }
 
 func (tc *TrCtx) lookupLocal(name string) (TVal, bool) {
